@@ -345,6 +345,8 @@ func (g *gateway) RoundTrip(hr *http.Request) (*http.Response, error) {
 		if ep != "get_class_by_hash" {
 			r.kind = "casm"
 		}
+	case ep == "get_preconfirmed_block": // C20 feeder class (c20feeder.go)
+		classifyPc(q, r, ep)
 	default:
 		r.kind, r.ident = "other", r.ident+":"+ep
 	}
@@ -363,7 +365,7 @@ func (g *gateway) RoundTrip(hr *http.Request) (*http.Response, error) {
 	case "block":
 		gs.block, gs.hasBlock = r.n, true
 		gs.unknown, gs.sierra, gs.open, gs.hasTarget = nil, nil, false, false
-	case "latest":
+	case "latest", "pclatest", "pcnum": // (a burst of the poller's class requests ends with its next pre-confirmed request)
 		gs.unknown, gs.sierra, gs.open, gs.hasTarget = nil, nil, false, false
 	case "class", "casm":
 		if gs.hasBlock {
@@ -448,6 +450,8 @@ func (g *gateway) wire(r *req, x resp) resp {
 		x = resp{status: http.StatusOK, body: feedergen.Encode(t)}
 	case r.kind == "latest" && x.hdr != nil:
 		x = resp{status: http.StatusOK, body: feedergen.Encode(feedergen.HeaderTree(x.hdr.Hash, x.hdr.Number))}
+	case x.upd != nil: // C20 feeder class (c20feeder.go)
+		x = g.wirePc(r, x)
 	default:
 		c.Broken("feeder gateway: answer of request %s has no wire form", r.key)
 	}
